@@ -51,3 +51,8 @@ Definition d_tres (h : N) (t : tres) : N :=
 
 Definition digest (l : list tres) : N := fold_left d_tres l 17.
 Definition case_digest (k : stack) (its : list item) : N := digest (run_case k its).
+
+(* single in-memory file machine (C02) *)
+Definition fcase_digest (content : bytes) (spec : list (bool * bool)) (ops : list op) : N :=
+  let '(s, outs) := run_steps mf_step (mf_init content spec) ops in
+  d_bytes (fold_left d_res outs 17) (fdata s).
